@@ -26,5 +26,27 @@ func TestSweep(t *testing.T) {
 			}
 		}
 	}
+	// every channel count 1..64 (per-channel arithmetic must be exact for each of them)
+	for _, tn := range []string{"int8", "float64", "NUint32"} {
+		for C := 1; C <= 64; C++ {
+			for _, lk := range [][2]int{{0, 1}, {1, 1}, {2, 3}, {0, 8}, {511, 512}, {1000, 1000}} {
+				Oracle.One(t, env, rec, "sweep", &Case{T: tn, C: C, L: lk[0], K: lk[1], C2: C, L2: 0, K2: 1})
+			}
+		}
+	}
+	// many small allocations of one size, all kept alive: uniform sizes that divide powers of two (arena / size-class boundaries)
+	for _, tn := range []string{"int8", "uint16", "float32", "float64", "NInt16"} {
+		w := kit.Info(tn).Bits / 8
+		for _, bytes := range []int{1, 2, 8, 64, 256, 512, 24, 100} {
+			if bytes%w != 0 {
+				continue
+			}
+			m := 2*65536/bytes + 10
+			if bytes >= 64 {
+				m = 2*(1<<20)/bytes/env.Pick(8, 1) + 10
+			}
+			Oracle.One(t, env, rec, "sweep", &Case{T: tn, C: 1, L: 0, K: bytes / w, C2: 1, L2: 0, K2: 1, Mass: m})
+		}
+	}
 	rec.Exhaustive("26 types (13 built-in + 13 named) x C<=8(16) x all 0<=L<=K<=6(9) x {same shape, 2x1x3} second allocation", true)
 }
